@@ -57,7 +57,26 @@ def gen_plan(seed, tier):
     frames.append((fs, r.randint(1, nports)))
   steps = []
   n = r.randint(6, 40 if tier == "thorough" else 24)
+  frag_run = r.chance(0.2)
+  if frag_run:
+    # a run about fragment handling: fragments and whole datagrams that
+    # merely carry flag bits (DF) side by side, FRAG_DROP switched on early
+    base = None
+    for _ in range(20):
+      base = G.gen_frame(r, rich=True)
+      if base["kind"] in ("udp", "tcp", "icmp", "ipother"):
+        break
+    if base["kind"] in ("udp", "tcp", "icmp", "ipother"):
+      whole = {k: v for k, v in base.items()
+               if k not in ("frag", "fragcut", "df")}
+      frames.append((dict(whole, df=1), r.randint(1, nports)))
+      frames.append((dict(whole, frag=r.pick([[1, 0], [0, 5], [1, 5]])),
+                     r.randint(1, nports)))
+      frames.append((whole, r.randint(1, nports)))
   for i in range(n):
+    if frag_run and i == min(n - 1, 2):
+      steps.append({"op": "set_config", "flags": 1,
+                    "msl": r.pick([0, 64, 1500])})
     k = r.wpick([(5, "flow_mod"), (8, "frame"), (4, "packet_out"),
                  (2, "po_buf"), (3, "port_mod"), (1, "port_stats"),
                  (2, "set_config")])
